@@ -34,28 +34,3 @@ def install(reg):
         ensures=[("sources", lambda c: LSet(c.result) == SrcOf(c.encoded_network))],
         note="variables that no transition changes, sorted",
     ))
-    reg.add(Contract(
-        "biobalm.trappist_core.trappist", trusted=True,
-        params=[("network", M.TPN), ("problem", TInt), ("reverse_time", TBool), ("solution_limit", OptInt),
-                ("ensure_subspace", OptSpace), ("avoid_subspaces", OptLS), ("optimize_source_variables", OptLN)],
-        defaults={"problem": 0, "reverse_time": False, "solution_limit": None, "ensure_subspace": None,
-                  "avoid_subspaces": None, "optimize_source_variables": None},
-        result_type=LS,
-        properties=("C09", "C02", "C03", "C04", "C15"),
-        may_raise={"RuntimeError": {}},     # clingo grounding / solving failure: nothing is modified
-        raises={"RuntimeError": []},
-        ensures=[
-            ("elements_wf", lambda c: elems_wf(c.result)),
-            ("limit_respected", lambda c: z3.Implies(z3.Not(OptInt.is_none(c.solution_limit)), z3.And(
-                z3.Implies(OptInt.val(c.solution_limit) <= 0, LS.len(c.result) == 0),
-                z3.Implies(OptInt.val(c.solution_limit) >= 1, LS.len(c.result) <= OptInt.val(c.solution_limit))))),
-            ("complete_unless_truncated", lambda c: z3.Implies(
-                z3.Or(OptInt.is_none(c.solution_limit), LS.len(c.result) < OptInt.val(c.solution_limit)),
-                T.IsEnum(c.result, T.TrapSol(
-                    c.network, c.problem, c.reverse_time,
-                    z3.If(OptSpace.is_none(c.ensure_subspace), z3.K(Name, z3.IntVal(-1)), OptSpace.val(c.ensure_subspace)),
-                    z3.If(OptLS.is_none(c.avoid_subspaces), T.no_avoid, AvoidOf(OptLS.val(c.avoid_subspaces))),
-                    z3.If(OptLN.is_none(c.optimize_source_variables), SrcOf(c.network), LSet(OptLN.val(c.optimize_source_variables))))))),
-        ],
-        note="composite of _create_clingo_constraints + clingo enumeration modes + _clingo_model_to_space (DESIGN.md 6.3/6.4)",
-    ))
